@@ -11,7 +11,10 @@ RUNG1 = ("Machine-checked Lean 4 theorems (kernel-checked by `lake build`, axiom
 TIE = ("Search side additionally tied by TRANSLATION: tools/rs2lean.py re-translates the current Rust source of the transition functions, the UTF-8 decoder, "
        "all iterator next() functions and all entry points into Lean on every run (Daac/Gen/SearchB.lean, SearchC.lean) and Daac/Props/Tie.lean proves the "
        "generated definitions equal to the model and, composed with Rung 2, that the translated search code on a model-built table returns the specification "
-       "on every haystack; a change to those functions breaks a proof obligation at lake build whether or not a generated input exercises it. ")
+       "on every haystack; a change to those functions breaks a proof obligation at lake build whether or not a generated input exercises it. "
+       "The construction side is translated as far as the free-slot bookkeeping (all of BuildHelper) and the layout primitives of both builders (Daac/Gen/Helper.lean, LayoutB.lean, LayoutC.lean; Props/TieBuild.lean), "
+       "and the State/Output accessors with the U24nU8 bit packing, which those units read as the model's fields, are translated by tools/acc2lean.py and proved to be those fields (Daac/Gen/Access.lean; Props/TieAcc.lean). "
+       "The pattern-insertion phase NfaBuilder::{new, add, is_registered, child_id} (where all validation of C10 and the leftmost-first shadowing of C04/C15 happen) is translated by tools/nfa2lean.py (Daac/Gen/Nfa.lean) and proved to REFINE the model's path-keyed trie insertion: same outcome on every pattern, the id-indexed state array keeps representing the model's tree (Proofs/TieN.lean, Props/TieNfa.lean). ")
 TIE_SER = ("Serialisation code additionally tied by TRANSLATION: tools/ser2lean.py re-translates every Serializable / SerializableVec impl (incl. the body of define_serializable_primitive! and the table of its invocations), "
            "serialize and deserialize_unchecked of both automata into Lean on every run (Daac/Gen/Serial.lean); Daac/Proofs/TieS.lean proves the translated entry points equal to the model's serialize / deserialize on every automaton value and every byte string, "
            "and Daac/Props/TieSer.lean that the translated code round-trips every well-formed automaton (in particular every model-built one) with arbitrary trailing bytes and that the reserved capacity is exact; a change to that code breaks a proof obligation at lake build whether or not a generated input exercises it. ")
